@@ -6,7 +6,7 @@ root = os.path.join(os.path.dirname(os.path.abspath(__file__)), '..', 'seeded')
 want = sys.argv[1:] or None
 rows = []
 for d in sorted(os.listdir(root)):
-    m = re.match(r'^(C\d+)-([AB])(\d*)$', d)
+    m = re.match(r'^(C\d+)-([ABC])(\d*)$', d)
     if not m:
         continue
     if want is not None and (m.group(3) or '1') not in want:
